@@ -88,16 +88,54 @@ impl<'a> AnalyzeContext<'a, '_> {
                     self.boolean_expr(scope, guard_condition, diagnostics)?;
                 }
                 let nested = scope.nested();
+                // The position of the block, used when reporting missing associations
+                let block_pos = if let Some(ref label) = statement.label.tree {
+                    label.pos(self.ctx).clone()
+                } else {
+                    src_span.pos(self.ctx)
+                };
+                // Maps generic types to their actual values
+                let mut mapping = FnvHashMap::default();
                 if let Some(ref mut list) = block.header.generic_clause {
-                    self.analyze_interface_list(&nested, parent, list, diagnostics)?;
-                }
-                if let Some(ref mut list) = block.header.generic_map {
+                    let generic_region =
+                        self.analyze_interface_list(&nested, parent, list, diagnostics)?;
+                    as_fatal(
+                        self.check_association(
+                            &block_pos,
+                            &generic_region,
+                            &mut mapping,
+                            scope,
+                            block
+                                .header
+                                .generic_map
+                                .as_mut()
+                                .map_or(&mut [], |it| it.list.items.as_mut_slice()),
+                            diagnostics,
+                        ),
+                    )?;
+                } else if let Some(ref mut list) = block.header.generic_map {
+                    // Generic map without generic clause is a syntax error
                     self.analyze_assoc_elems(scope, &mut list.list.items[..], diagnostics)?;
                 }
                 if let Some(ref mut list) = block.header.port_clause {
-                    self.analyze_interface_list(&nested, parent, list, diagnostics)?;
-                }
-                if let Some(ref mut list) = block.header.port_map {
+                    let port_region =
+                        self.analyze_interface_list(&nested, parent, list, diagnostics)?;
+                    as_fatal(
+                        self.check_association(
+                            &block_pos,
+                            &port_region,
+                            &mut mapping,
+                            scope,
+                            block
+                                .header
+                                .port_map
+                                .as_mut()
+                                .map_or(&mut [], |it| it.list.items.as_mut_slice()),
+                            diagnostics,
+                        ),
+                    )?;
+                } else if let Some(ref mut list) = block.header.port_map {
+                    // Port map without port clause is a syntax error
                     self.analyze_assoc_elems(scope, &mut list.list.items[..], diagnostics)?;
                 }
 
